@@ -190,7 +190,7 @@ Proof. vm_compute. reflexivity. Qed.
 
 (* ---- maps ----
    MAP_EXT is decoded into a BTreeMap ordered by the term comparison.  On keys that are lawful for that comparison (no
-   floats, no improper lists, no internal funs, integers as the library holds them) Equal means "same Erlang value"; so
+   floats, no improper lists, no internal funs, integers in minimal digits) Equal means "same Erlang value"; so
    when the decoded keys denote pairwise different values every entry of the wire is in the result exactly once, whatever
    the wire order.  (Keys outside the class are the recorded findings C03-map-numeric-keys / -list-improper-keys.) *)
 From EDP Require Import Order.Cmp Order.Key Order.KeyFacts.
